@@ -1,9 +1,32 @@
 use std::{borrow::Cow, collections::VecDeque};
 
-#[derive(Clone, Debug, PartialEq, Eq, Hash)]
+#[derive(Clone, Debug)]
 pub(crate) struct RouteSegments {
     literal:  Cow<'static, str>,
     segments: VecDeque<RouteSegment>,
+}
+/* Two routes are the same route when they match the same paths:
+   the names of params don't matter, as in the routing tree (`Pattern::matches`) */
+impl PartialEq for RouteSegments {
+    fn eq(&self, other: &Self) -> bool {
+        self.segments.len() == other.segments.len()
+        && self.segments.iter().zip(other.segments.iter()).all(|(a, b)| match (a, b) {
+            (RouteSegment::Param(_),  RouteSegment::Param(_))  => true,
+            (RouteSegment::Static(a), RouteSegment::Static(b)) => a == b,
+            _ => false
+        })
+    }
+}
+impl Eq for RouteSegments {}
+impl std::hash::Hash for RouteSegments {
+    fn hash<H: std::hash::Hasher>(&self, state: &mut H) {
+        for segment in &self.segments {
+            match segment {
+                RouteSegment::Param(_)  => 0u8.hash(state),
+                RouteSegment::Static(s) => {1u8.hash(state); s.hash(state)}
+            }
+        }
+    }
 }
 impl RouteSegments {
     pub(crate) fn from_literal(literal: impl Into<Cow<'static, str>>) -> Self {
